@@ -178,6 +178,76 @@ Theorem C14_script_sound : forall tk pool dialf o,
 Proof. exact run_script_sound_bounds. Qed.
 Print Assumptions C14_script_sound.
 
+(* ---- a pooled pipelined connection that goes SILENT (no FIN, no RST) ----
+   Model: [ix_step wr idle] — one pooled pipelined connection with the clock of its read loop ([ix_since] = time since
+   the read deadline was last armed, i.e. since the last message was READ), shared by any number of exchange goroutines
+   (instances of the exchange LTS on TPipe) that join, write, wait, time out and retry in any interleaving.
+   The code is [wr = false]: pipelineConn.write touches no deadline. *)
+
+(* nothing but a read from the connection lowers the time since the deadline was armed: no write, no join, no step of
+   any exchange; time steps raise it *)
+Theorem C14_idle_deadline_only_reads_rearm : forall idle s l s',
+  ix_step false idle s l = Some s' -> ix_is_read s l = false ->
+  ix_since (ix_conn s) + (match l with IxTick => 1 | _ => 0 end) <= ix_since (ix_conn s').
+Proof. exact ix_since_monotone. Qed.
+Print Assumptions C14_idle_deadline_only_reads_rearm.
+
+(* so after an idle time-out of silence the idle deadline step is enabled WHATEVER the exchanges did meanwhile (it is
+   never disabled by exchange activity) *)
+Theorem C14_idle_deadline_enabled : forall idle ls s s',
+  ix_exec false idle ls s = Some s' -> ix_silent false idle ls s = true ->
+  idle <= ix_since (ix_conn s) + ix_ticks ls ->
+  ix_dead (ix_conn s') = false ->
+  exists s'', ix_step false idle s' IxIdleFire = Some s''.
+Proof. exact ix_fire_enabled_after_silence. Qed.
+Print Assumptions C14_idle_deadline_enabled.
+
+(* and when it fires, the connection is dead for good and EVERY exchange waiting on it with a live context and retry
+   budget left reaches the reply — connection arm, retry (reused connection, ctx live), ONE fresh dial to the healthy
+   server, write, reply — by steps that no other exchange can disturb and that disturb no other exchange *)
+Theorem C14_silent_pooled_conn_recovered : forall idle ls s0 s,
+  ix_exec false idle ls s0 = Some s -> ix_silent false idle ls s0 = true ->
+  idle <= ix_since (ix_conn s0) + ix_ticks ls ->
+  ix_dead (ix_conn s) = false ->
+  exists sf, ix_step false idle s IxIdleFire = Some sf /\ ix_dead (ix_conn sf) = true /\
+    forall i w r, nth_error (ix_ws s) i = Some w ->
+      pcv w = PWait false r -> ctxd w = false -> retry w < retry_limit TPipe ->
+      exists s2 w2, ix_exec false idle (map (IxW i) ix_recovery) sf = Some s2 /\
+                    nth_error (ix_ws s2) i = Some w2 /\ pcv w2 = PRet RReply /\
+                    dials w2 = S (dials w) /\ retry w2 = S (retry w) /\
+                    (forall j, j <> i -> nth_error (ix_ws s2) j = nth_error (ix_ws sf) j).
+Proof. exact ix_silent_pooled_conn_recovered. Qed.
+Print Assumptions C14_silent_pooled_conn_recovered.
+
+Theorem C14_conn_stays_dead : forall wr idle s l s',
+  ix_step wr idle s l = Some s' -> ix_dead (ix_conn s) = true -> ix_dead (ix_conn s') = true.
+Proof. exact ix_dead_monotone. Qed.
+Print Assumptions C14_conn_stays_dead.
+
+(* sensitivity (the regression this guards against: SetDeadline instead of SetWriteDeadline in pipelineConn.write):
+   if a write re-armed the read deadline, 10 exchanges arriving one time unit apart (idle = 3) keep a silent connection
+   alive — all 10 are still on it, the deadline step is disabled — while under the code it is enabled *)
+Theorem C14_write_rearm_would_starve :
+  let ls := ix_busy_rounds 10 0 in
+  ix_ticks ls = 10 /\
+  ix_silent true 3 ls ix_init = true /\ ix_silent false 3 ls ix_init = true /\
+  (exists s, ix_exec true 3 ls ix_init = Some s /\ ix_dead (ix_conn s) = false /\ ix_fire_enabled 3 s = false /\
+             length (ix_ws s) = 10 /\ forallb ix_on_conn (ix_ws s) = true) /\
+  (exists s, ix_exec false 3 ls ix_init = Some s /\ ix_dead (ix_conn s) = false /\ ix_fire_enabled 3 s = true).
+Proof. exact ix_write_rearm_starves. Qed.
+Print Assumptions C14_write_rearm_would_starve.
+
+(* the scripted form the harness replays (exchange deadline beyond the idle time-out): reply after one dial and two
+   attempts; with the deadline before the idle time-out the exchange ends at its deadline; a silent FRESH connection
+   dies at the idle time-out and its error is returned *)
+Theorem C14_silent_pooled_script : forall udp,
+  run_case_idle TPipe udp true [SSilent] [SOk] = Some (mkOut RReply 1 2 false) /\
+  run_case_idle TPipe udp true [SHalf] [SOk] = Some (mkOut RReply 1 2 false) /\
+  run_case_idle TPipe udp false [SSilent] [SOk] = Some (mkOut RErr 0 1 true) /\
+  run_case_idle TPipe udp true [] [SSilent] = Some (mkOut RErr 1 1 false).
+Proof. exact script_silent_pooled_recovered. Qed.
+Print Assumptions C14_silent_pooled_script.
+
 (* ---- non-vacuity ---- *)
 (* boundary of the retry constants: 5 stale -> reply / 6 stale -> error on the pipelined transport; on reuse 6 retries, then the 7th attempt always dials *)
 Example C14_example_boundaries :
@@ -209,3 +279,15 @@ Example C14_example_ctx_arm :
                step TReuse s AArmCtx = Some s' /\ pcv s' = PCheck false /\
                step TReuse s AArmRes = None.
 Proof. eexists; eexists. vm_compute. repeat split. Qed.
+
+(* the hypotheses of C14_silent_pooled_conn_recovered are met by a concrete execution: one exchange waits on the pooled
+   connection, two more join and WRITE while time passes (idle = 3); the deadline fires and the first waiter recovers *)
+Example C14_example_silent_pooled :
+  let ls := [IxJoin; IxW 0 (AGet true); IxW 0 (AWrite true); IxTick;
+             IxJoin; IxW 1 (AGet true); IxW 1 (AWrite true); IxTick;
+             IxJoin; IxW 2 (AGet true); IxW 2 (AWrite true); IxTick] in
+  ix_silent false 3 ls ix_init = true /\ ix_ticks ls = 3 /\
+  exists s s2 w2, ix_exec false 3 (ls ++ [IxIdleFire] ++ map (IxW 0) ix_recovery) ix_init = Some s2 /\
+                  ix_exec false 3 ls ix_init = Some s /\ ix_dead (ix_conn s) = false /\
+                  nth_error (ix_ws s2) 0 = Some w2 /\ pcv w2 = PRet RReply /\ dials w2 = 1 /\ retry w2 = 1.
+Proof. cbv zeta. split; [vm_compute; reflexivity|]. split; [reflexivity|]. eexists; eexists; eexists. vm_compute. repeat split. Qed.
